@@ -36,17 +36,22 @@ Definition assignment_ret_error (a : assignment) : bool :=
 
 Definition full_type (v : gvar) : str := if v_pointer v then [42] ++ v_type v else v_type v.
 
-(** generator.AssignmentToString *)
-Definition assignment_to_string (f : function) (a : assignment) : str :=
-  assignment_string a ++
-  (if assignment_ret_error a then
-     if str_eqb (fn_style f) style_return && v_pointer (fn_dst f)
-     then s2b "if err != nil {" ++ nl ++ s2b "return nil, err" ++ nl ++ s2b "}" ++ nl
-     else s2b "if err != nil {" ++ nl ++ s2b "return" ++ nl ++ s2b "}" ++ nl
-   else []).
+(** the error check emitted after an error-returning assignment *)
+Definition err_check (f : function) : str :=
+  if str_eqb (fn_style f) style_return && v_pointer (fn_dst f)
+  then s2b "if err != nil {" ++ nl ++ s2b "return nil, err" ++ nl ++ s2b "}" ++ nl
+  else s2b "if err != nil {" ++ nl ++ s2b "return" ++ nl ++ s2b "}" ++ nl.
 
-(** generator.ManipulatorToString(m, src, dst, args) *)
-Definition manipulator_to_string (m : gmanip) (src dst : gvar) (args : list gvar) : str :=
+(** generator.AssignmentToString: member-wise blocks are rendered through it
+    too, so every error-returning assignment, nested or not, is checked *)
+Fixpoint assignment_to_string (f : function) (a : assignment) : str :=
+  match a with
+  | ANest contents => concat_str (List.map (assignment_to_string f) contents)
+  | _ => assignment_string a ++ (if assignment_ret_error a then err_check f else [])
+  end.
+
+(** generator.ManipulatorToString(m, src, dst, args): the call line, then the error check when the hook returns an error *)
+Definition hook_call_text (m : gmanip) (src dst : gvar) (args : list gvar) : str :=
   (if gm_ret_err m then s2b "err = " else []) ++
   (match gm_pkg m with [] => [] | p => p ++ [46] end) ++
   gm_name m ++ [40] ++
@@ -55,8 +60,12 @@ Definition manipulator_to_string (m : gmanip) (src dst : gvar) (args : list gvar
   (if Bool.eqb (v_pointer src) (gm_src_ptr m) then [] else if v_pointer src then [42] else [38]) ++
   v_name src ++
   (if gm_has_args m then concat_str (List.map (fun a => s2b ", " ++ v_name a) args) else []) ++
-  [41] ++ nl ++
-  (if gm_ret_err m then s2b "if err != nil {" ++ nl ++ s2b "return" ++ nl ++ s2b "}" ++ nl else []).
+  [41] ++ nl.
+
+Definition hook_err_check : str := s2b "if err != nil {" ++ nl ++ s2b "return" ++ nl ++ s2b "}" ++ nl.
+
+Definition manipulator_to_string (m : gmanip) (src dst : gvar) (args : list gvar) : str :=
+  hook_call_text m src dst args ++ (if gm_ret_err m then hook_err_check else []).
 
 (** generator.FuncToString *)
 Definition func_params (f : function) : list str :=
